@@ -34,6 +34,10 @@ def replay_is_kill(replay):
     return bool(replay) and open(replay).readline().startswith('{"e":"KReset"')
 
 
+def replay_is_dropin(replay):
+    return bool(replay) and open(replay).readline().startswith('{"e":"SReset"')
+
+
 def run(pid, tier, tmp, replay):
     t0 = time.time()
     cfg = P[pid]
@@ -67,8 +71,8 @@ def run(pid, tier, tmp, replay):
     n = cfg['n'][tier]
     trace = os.path.join(tmp, 'engine.ndjson')
     args = [trace, vlib.seed(), n, cfg['profile']]
-    if replay and replay_is_kill(replay):
-        args = [trace, vlib.seed(), 1, cfg['profile']]      # the replay file is an execution of kill_driver (below)
+    if replay and (replay_is_kill(replay) or replay_is_dropin(replay)):
+        args = [trace, vlib.seed(), 1, cfg['profile']]      # the replay file is an execution of kill_driver / dropin_driver (below)
     elif replay:
         first = json.loads(open(replay).readline())
         args = [trace, first['seed'], 1, first['profile'], first['scn']]
@@ -76,6 +80,20 @@ def run(pid, tier, tmp, replay):
     if rc != 0:
         raise vlib.Infra('engine_driver exited with %s: %s' % (rc, open(errlog, errors='replace').read()[-1500:]))
     val = vlib.validate_trace('Engine_Trace.tla', 'Engine_Trace.cfg', trace, tmp, timeout=3000)
+    dval = None
+    if pid == 'C13' and (not replay or replay_is_dropin(replay)):
+        # re-adding / replacing a tag through the FILE based service (FsDropInService in front of the adaptor): an add
+        # that follows a failed add of the same tag, or repeats an earlier content, must still reach the engine
+        vlib.build('tsan', ['dropin_driver'])
+        dtrace = os.path.join(tmp, 'dropin.ndjson')
+        dargs = [dtrace, vlib.seed(), 40 if tier == 'quick' else 600]
+        if replay:
+            first = json.loads(open(replay).readline())
+            dargs = [dtrace, first['seed'], 1, first['scn']]
+        drc, derr = vlib.run_driver('tsan', 'dropin_driver', dargs, tmp, timeout=900)
+        if drc not in (0, 66):
+            raise vlib.Infra('dropin_driver exited with %s' % drc)
+        dval = vlib.validate_trace('DropInWatcher_Trace.tla', 'DropInWatcher_Trace.cfg', dtrace, tmp)
     kval = None
     if pid == 'C05':
         # the delay rule around REAL kill plugins (own post_action_delay, always_continue, a later action stopping the
@@ -110,6 +128,12 @@ def run(pid, tier, tmp, replay):
         violations.append({'replay': p, 'why': 'stage B: %s event %d of the execution: %s (after %s)' % (
             why, rej['line_in_execution'], rej['first_unmatched'][:300], rej['last_matched'][:200])})
 
+    if dval:
+        for i, rej in enumerate(dval['rejections']):
+            seg = rej.pop('segment')
+            p = vlib.save_replay(pid, 'rejected_dropin_%d.ndjson' % i, seg)
+            violations.append({'replay': p, 'why': 'stage B (file based drop-in service): event %d of the execution: %s (after %s)' % (
+                rej['line_in_execution'], rej['first_unmatched'][:300], rej['last_matched'][:200])})
     if kval:
         for i, rej in enumerate(kval['rejections']):
             seg = rej.pop('segment')
@@ -131,7 +155,7 @@ def run(pid, tier, tmp, replay):
         'trace_executions': val['executions'], 'trace_events': val['lines'], 'trace_executions_skipped_search_limit': val.get('skipped_search_limit', 0),
         'trace_rejections': len(val['rejections']),
         'driver_profile': cfg['profile'], 'build_variant': cfg['variant'],
-        'kill_plugin_executions': kval['executions'] if kval else 0, 'kill_plugin_events': kval['lines'] if kval else 0,
+        'kill_plugin_executions': kval['executions'] if kval else 0, 'file_dropin_executions': dval['executions'] if dval else 0, 'kill_plugin_events': kval['lines'] if kval else 0,
         'exhaustive': False,
     }
     vlib.write_evidence(pid, tier, 'model_checking', cov, time.time() - t0, len(violations), ASSUME)
